@@ -6,6 +6,8 @@ cmp_le0(fn, nid) -> normal form L of an integer comparison rewritten as "L <= 0"
 so `a < mid`, `a <= mid - 1` and `mid > a` are the same object.
 """
 
+import re
+
 SKIP = ('ParenExpr', 'ImplicitCastExpr', 'ExprWithCleanups', 'MaterializeTemporaryExpr', 'CXXBindTemporaryExpr',
         'ConstantExpr', 'FullExpr', 'CStyleCastExpr', 'CXXStaticCastExpr', 'CXXFunctionalCastExpr')
 INT_CASTS = ('IntegralCast', 'LValueToRValue', 'NoOp', 'IntegralToFloating', 'FloatingCast', 'FloatingToIntegral')
@@ -123,7 +125,7 @@ def show(d):
             if v:
                 parts.append('%+d' % v)
         else:
-            parts.append('%+d*%s' % (v, k))
+            parts.append('%+d*%s' % (v, re.sub(r'#\d+', '', str(k))))
     return ' '.join(parts) or '0'
 
 
